@@ -197,6 +197,12 @@ func fFloat(n float64, bitSize int) string {
 	}
 }
 
+// QuoteString writes a string as a quoted literal of the proto text format
+// (the form option values take in a .proto file).
+func QuoteString(in string) string {
+	return prototextString(in)
+}
+
 func prototextString(in string) string {
 	outputASCII := true
 	out := make([]byte, 0, len(in)+2)
